@@ -1064,7 +1064,68 @@ func (e *Enc) execReturn(in *ssa.Return) {
 		o := e.oblige("post", name, env.evalBool(cl.Expr), in.Pos(), cl.Src)
 		o.setMeta(cl.Label, token.Position{Filename: cl.File, Line: cl.Line})
 	}
+	// behavioural subtyping, postcondition side: what callers assume of the interface method holds of this method
+	for _, lc := range e.refinedSpecs() {
+		renv := e.refineEnv(lc, e.cur, e.init)
+		rn := resultNames(lc, sig)
+		for i := range rn {
+			if i < len(in.Results) {
+				t := sig.Results().At(i).Type()
+				sv := SV{T: e.val(in.Results[i]).T, Sort: e.sortOf(t), GT: t}
+				renv.vars[rn[i]] = sv
+				if i == 0 {
+					renv.vars["result"] = sv
+				}
+				renv.vars[fmt.Sprintf("result%d", i)] = sv
+			}
+		}
+		for i, cl := range lc.Ensures {
+			o := e.oblige("refine", fmt.Sprintf("refine:post:%s.%d@ret%d", lc.Key, i, ord), renv.evalBool(cl.Expr), in.Pos(), "libspec clause of "+lc.Key+": "+cl.Src)
+			o.setMeta(cl.Label, token.Position{Filename: cl.File, Line: cl.Line})
+		}
+	}
 	e.returns++
+}
+
+// refineEnv: the spec environment in which a clause of the interface-method libspec lc is evaluated for the method
+// under verification: lc's parameter names bound positionally (receiver first; a non-interface receiver is boxed, so
+// that interface ghosts such as a.overhead denote those of the interface value holding it).
+func (e *Enc) refineEnv(lc *FuncContract, cur, old *State) *specEnv {
+	env := &specEnv{e: e, cur: cur, old: old, vars: map[string]SV{}, ptrVars: map[string]ptrVar{}, noLocals: true, isCallee: true}
+	if e.fn.Pkg != nil {
+		env.pkg = e.fn.Pkg.Pkg
+	}
+	for i, p := range e.fn.Params {
+		if i >= len(lc.Params) {
+			break
+		}
+		t := p.Type()
+		sv := SV{T: e.vals[p].T, Sort: e.sortOf(t), GT: t}
+		if i == 0 && e.fn.Signature.Recv() != nil {
+			if _, isIface := t.Underlying().(*types.Interface); !isIface {
+				sv = SV{T: sx("mk-iface", tInt(int64(e.W.typeID(t))), e.vals[p].T), Sort: "Iface", GT: types.NewInterfaceType(nil, nil)}
+			}
+		}
+		env.vars[lc.Params[i]] = sv
+	}
+	return env
+}
+
+func (e *Enc) refinedSpecs() []*FuncContract {
+	var out []*FuncContract
+	if e.fc == nil {
+		return nil
+	}
+	for _, k := range e.fc.Refines {
+		lc := e.W.C.Funcs[normalizeFnKey(k)]
+		if lc == nil {
+			e.curReach = tTrue
+			e.oblige("refine", "refine:missing:"+k, tFalse, token.NoPos, "no libspec "+k+" to refine")
+			continue
+		}
+		out = append(out, lc)
+	}
+	return out
 }
 
 // entrySpecs assumes the preconditions.
@@ -1076,8 +1137,23 @@ func (e *Enc) entrySpecs() {
 	env.noLocals = true
 	var pres []Term
 	for _, cl := range e.fc.Requires {
-		t := env.evalBool(cl.Expr)
-		pres = append(pres, t)
+		pres = append(pres, env.evalBool(cl.Expr))
+	}
+	// behavioural subtyping, precondition side: whenever a caller respects the interface method's libspec (its
+	// requires hold and none of its documented panics is triggered) this method's own preconditions hold
+	for _, lc := range e.refinedSpecs() {
+		renv := e.refineEnv(lc, e.init, e.init)
+		var hyp []Term
+		for _, cl := range lc.Requires {
+			hyp = append(hyp, renv.evalBool(cl.Expr))
+		}
+		for _, cl := range lc.Panics {
+			hyp = append(hyp, tNot(renv.evalBool(cl.Expr)))
+		}
+		e.curReach = tTrue
+		e.oblige("refine", "refine:pre:"+lc.Key, tImp(tAnd(hyp...), tAnd(pres...)), token.NoPos, "preconditions of this method follow from those of "+lc.Key)
+	}
+	for _, t := range pres {
 		e.assumeG(t)
 	}
 	e.preCond = tAnd(pres...)
@@ -1121,11 +1197,63 @@ func (e *Enc) execRunDefers(in *ssa.RunDefers) {
 }
 
 func (e *Enc) execGo(in *ssa.Go) {
-	// the spawned function runs concurrently: its contract is not applied as a call; what it can reach is
-	// havocked unless it has a contract with a modifies clause (then only that).
-	key, short, _, _ := calleeName(in.Common())
-	e.applyAts("before go", "", in.Pos(), nil, nil)
+	// the spawned function starts in the current state, so its preconditions are obligations here; it then runs
+	// concurrently: its postconditions are not assumed, and what it can reach is havocked unless it has a contract with
+	// a modifies clause. A function with a frame (modifies clause) may only spawn functions whose own frame lies within it.
+	c := in.Common()
+	key, short, sig, sfn := calleeName(c)
+	var args []Val
+	var argTypes []types.Type
+	if c.IsInvoke() {
+		args, argTypes = append(args, e.val(c.Value)), append(argTypes, c.Value.Type())
+	}
+	for _, a := range c.Args {
+		args, argTypes = append(args, e.val(a)), append(argTypes, a.Type())
+	}
+	e.atArgTypes = argTypes
+	e.applyAts("before go", "", in.Pos(), args, nil)
+	e.atArgTypes = nil
 	fc := e.W.C.Funcs[normalizeFnKey(key)]
+	var bindings []ssa.Value
+	if mc, ok := c.Value.(*ssa.MakeClosure); ok {
+		bindings = mc.Bindings
+	}
+	site := fmt.Sprintf("go %s#%d", short, e.siteOrdinal(in, "go", ""))
+	var env *specEnv
+	if fc != nil && sig != nil {
+		env = e.calleeEnv(fc, sig, sfn, c, args, argTypes, bindings)
+		reqs := fc.Requires
+		if fc.Mode == "bv" && !e.bv {
+			reqs = fc.IntRequires
+		}
+		for i, cl := range reqs {
+			o := e.oblige("pre", fmt.Sprintf("pre:%s.%d", site, i), env.evalBool(cl.Expr), in.Pos(), cl.Src)
+			o.setLabel(cl.Label)
+		}
+	}
+	callerFramed := e.fc != nil && e.fc.HasModifies
+	switch {
+	case fc != nil && fc.Opts["go"] == "detached":
+		// declared on the spawned function: a long-running goroutine (runs user callbacks, serves a queue ...) whose
+		// effects are not bounded by the frame of whoever starts it
+		e.used["go "+key+": detached goroutine, its effects are not bounded by the spawning function's frame (opt go=detached)"] = true
+	case fc != nil && fc.HasModifies:
+		if callerFramed && env != nil {
+			var items []frameItem
+			for _, cl := range fc.Modifies {
+				for _, it := range env.lvalue(cl.Expr) {
+					// lock-protected fields and ghost state are governed by the monitor rule / are not program memory
+					if e.isLockProtectedHeap(it.Heap) || strings.HasPrefix(it.Heap, "GF$") || strings.HasPrefix(it.Heap, "GI$") || strings.HasPrefix(it.Heap, "$g") {
+						continue
+					}
+					items = append(items, it)
+				}
+			}
+			e.frameCheckItems(items, in.Pos(), "go")
+		}
+	case callerFramed:
+		e.oblige("frame", e.ordName("frame:go"), tFalse, in.Pos(), "spawned function without a modifies clause may write anything: "+key)
+	}
 	if fc != nil && fc.HasModifies && fc.Opts["go"] == "frame-only" {
 		e.used["go "+key+": concurrent effect limited to its modifies clause (contract)"] = true
 	} else if e.fc != nil && e.fc.Opts["go"] == "ignore" {
@@ -1133,8 +1261,32 @@ func (e *Enc) execGo(in *ssa.Go) {
 	} else {
 		e.havocAll()
 	}
-	_ = short
-	e.applyAts("go", "", in.Pos(), nil, nil)
+	e.atArgTypes = argTypes
+	e.applyAts("go", "", in.Pos(), args, nil)
+	e.atArgTypes = nil
+}
+
+// isLockProtectedHeap: the heap is a struct field that some lock declaration of the repository protects.
+func (e *Enc) isLockProtectedHeap(heap string) bool {
+	if !strings.HasPrefix(heap, "F$") {
+		return false
+	}
+	for tkey, tc := range e.W.C.Types {
+		for _, l := range tc.Locks {
+			for _, p := range l.Protects {
+				if strings.Contains(p, ".") {
+					// Type.field of another type in the same package
+					i := strings.LastIndex(tkey, ".")
+					if i > 0 && heap == "F$"+tkey[:i+1]+p {
+						return true
+					}
+				} else if heap == "F$"+tkey+"."+p {
+					return true
+				}
+			}
+		}
+	}
+	return false
 }
 
 func (e *Enc) execSelect(in *ssa.Select) {
@@ -1159,7 +1311,36 @@ func (e *Enc) execSelect(in *ssa.Select) {
 	}
 	e.vals[in] = Val{Tup: tup}
 	e.atResTypes = []types.Type{types.Typ[types.Int], types.Typ[types.Bool]}
-	e.applyAts("select", "", in.Pos(), nil, tup[:2])
+	// arg<i>: the channel of case i (in source order); selchan / selsend: channel and direction of the chosen case
+	var sargs []Val
+	var stypes []types.Type
+	chosen, chosenSend := Term("0"), Term("false")
+	for i := len(in.States) - 1; i >= 0; i-- {
+		st := in.States[i]
+		ct := e.val(st.Chan).T
+		chosen = tIte(tEq(idx, tInt(int64(i))), ct, chosen)
+		if st.Dir == types.SendOnly {
+			chosenSend = tIte(tEq(idx, tInt(int64(i))), tTrue, chosenSend)
+		} else {
+			chosenSend = tIte(tEq(idx, tInt(int64(i))), tFalse, chosenSend)
+		}
+	}
+	for _, st := range in.States {
+		sargs = append(sargs, e.val(st.Chan))
+		stypes = append(stypes, st.Chan.Type())
+	}
+	e.atArgTypes = stypes
+	if e.atVars == nil {
+		e.atVars = map[string]SV{}
+	}
+	e.atSelect = in
+	e.atVars["selchan"] = SV{T: chosen, Sort: "Int"}
+	e.atVars["selsend"] = SV{T: chosenSend, Sort: "Bool"}
+	e.applyAts("select", "", in.Pos(), sargs, tup[:2])
+	e.atSelect = nil
+	delete(e.atVars, "selchan")
+	delete(e.atVars, "selsend")
+	e.atArgTypes = nil
 	e.atResTypes = nil
 }
 
@@ -1258,9 +1439,11 @@ func (e *Enc) execBuiltin(v ssa.Value, b *ssa.Builtin, c *ssa.CallCommon, in ssa
 		switch u := c.Args[0].Type().Underlying().(type) {
 		case *types.Map:
 			e.mapClear(u, arg(0))
+		case *types.Slice:
+			e.execClearSlice(u, arg(0), in)
 		default:
 			e.havocAll()
-			e.unsupported("clear on slice")
+			e.unsupported("clear on " + c.Args[0].Type().String())
 		}
 	default:
 		if v != nil {
@@ -1353,6 +1536,25 @@ func (e *Enc) execCopy(v ssa.Value, c *ssa.CallCommon, in ssa.Instruction) {
 	if v != nil {
 		e.setVal(v, e.fromInt(n, v.Type()))
 	}
+}
+
+// clear(s): every element of s[0:len(s)] becomes the zero value; a write like any other for the frame.
+func (e *Enc) execClearSlice(st *types.Slice, d Term, in ssa.Instruction) {
+	elem := st.Elem()
+	es := e.sortOf(elem)
+	hs := fmt.Sprintf("(Array Int (Array Int %s))", es)
+	h := elemHeap(elem)
+	H := e.hget(e.cur, h, hs)
+	base, off, n := sx("s-base", d), sx("s-off", d), sx("s-len", d)
+	if e.fc != nil && e.fc.HasModifies {
+		it := frameItem{Heap: h, HeapSort: hs, Key: base, KeySort: "Int", Lo: off, Hi: tAdd(off, n)}
+		e.oblige("frame", e.ordName("frame:clear"), e.allowedWrite(it), in.Pos(), "clear destination within modifies clause or fresh memory")
+	}
+	a := e.fresh("clear_arr", fmt.Sprintf("(Array Int %s)", es))
+	offd := e.define("clear_off", "Int", off)
+	e.assume(fmt.Sprintf("(forall ((i!c Int)) (! (= (select %s i!c) (ite (and (<= %s i!c) (< i!c (+ %s %s))) %s (select (select %s %s) i!c))) :pattern ((select %s i!c))))",
+		a, offd, offd, n, e.zeroOf(elem), H, base, a))
+	e.hset(e.cur, h, hs, tIte(tEq(n, "0"), H, tStore(H, base, a)))
 }
 
 // ---------- maps ----------
